@@ -5,3 +5,4 @@ import TaskModel.Load.SortLemmas
 import TaskModel.Load.VarsLemmas
 import TaskModel.Load.Sites
 import TaskModel.Load.Siblings
+import TaskModel.Load.NormalizeLemmas
